@@ -9,7 +9,7 @@ Cases == JsonDeserialize(IOEnv.TRACE_FILE)
 VARIABLES tid, l
 C == Cases[tid]
 OInit == /\ tid \in 1..Len(Cases) /\ l = 1
-         /\ slot = [s \in Slots |-> Cases[tid].L]
+         /\ slot = [s \in Slots |-> IF s = "L" THEN Cases[tid].L ELSE Cases[tid].M]
          /\ req = [path |-> Cases[tid].path, size |-> Cases[tid].size, token |-> Cases[tid].token, mime |-> Cases[tid].mime,
                    deleteOn |-> Cases[tid].deleteOn, fault |-> Cases[tid].fault]
          /\ out = R(FALSE, [kind |-> "pending", at |-> "-", ghost |-> 0])
